@@ -182,47 +182,58 @@ inductive Sfx
   | none                -- no suffix
   | num (n : Nat)       -- `_12`
   | star                -- `_*`
-  | cls (c : Str)       -- `_CCF3` (upper case), keyword only
+  | cls (c : Str)       -- `_CCF3`, keyword only
   | other               -- `_$1` and anything else
 deriving Repr, DecidableEq
 
 def classify (sfx : Option Str) : Sfx :=
   match sfx with
   | .none => .none
-  | some ['*'] => .star
-  | some (c :: cs) =>
-    if isDigitStr (c :: cs) then .num (toNat (c :: cs))
-    else if c.isAlpha then .cls (upper (c :: cs))
-    else .other
   | some [] => .other
+  | some (c :: cs) =>
+    if c :: cs = ['*'] then .star
+    else if isDigitStr (c :: cs) then .num (toNat (c :: cs))
+    else if c.isAlpha then .cls (c :: cs)
+    else .other
 
 def tokSfx (tok : Str) : Sfx := classify (afterUS tok)
-def kwSfx (kw : Str) : Sfx := classify (afterUS kw)
+
+/-- SHELXL does not distinguish case: the keyword and the class it carries are read in upper case -/
+def kwSfx (kw : Str) : Sfx := classify (afterUS (upper kw))
 
 /-- all residues a RESI card defines -/
 def allResidues (f : File) : List Nat := f.resis.map (·.num)
 
-/-- residues of a class; classes are not case sensitive -/
+/-- residues of class `c` (given in upper case); the class of a residue is compared in upper case -/
 def residuesOfClass (f : File) (c : Str) : List Nat :=
-  (f.resis.filter fun r => upper r.cls == upper c).map (·.num)
+  (f.resis.filter fun r => upper r.cls == c).map (·.num)
 
 /-- element wildcards `$C`, symmetry equivalents `C1_$1` (anything with `$`) and the operators are not names -/
 def addressable (tok : Str) : Bool :=
   !(tok.contains '$') && tok != ['<'] && tok != ['>'] && tok != ['=']
+
+/-- the residues the keyword addresses -/
+def kwAddressed (f : File) (kw : Str) : List Nat :=
+  match kwSfx kw with
+  | .none => [0]
+  | .num n => [n]
+  | .star => allResidues f
+  | .cls c => residuesOfClass f c
+  | .other => []
 
 /-- the residue numbers in which token `tok` of restraint `r` has to exist -/
 def addressed (f : File) (r : Restr) (tok : Str) : List Nat :=
   match tokSfx tok with
   | .num n => [n]
   | .star => allResidues f
-  | .none =>
-    (match kwSfx r.kw with
-     | .none => [0]
-     | .num n => [n]
-     | .star => allResidues f
-     | .cls c => residuesOfClass f c
-     | .other => [])
+  | .none => kwAddressed f r.kw
   | _ => []
+
+/-- the keyword names a class that no residue has (then the class message is the diagnostic) -/
+def classUnknown (f : File) (r : Restr) : Bool :=
+  match kwSfx r.kw with
+  | .cls c => (residuesOfClass f c).isEmpty
+  | _ => false
 
 def atomExists (f : File) (name : Str) (n : Nat) : Bool :=
   f.atoms.any fun a => upper a.name == name && a.resi == n
@@ -241,9 +252,10 @@ def missing (f : File) (r : Restr) : List (Str × Nat) :=
 def wfFile (f : File) : Bool :=
   (f.atoms.all fun a => !(a.name.contains '_')) && (f.resis.all fun r => r.num > 0 && r.cls != [])
 
-/-- the keyword has at most one `_`; what follows is `*`, a number or a class name (starts with a letter) -/
+/-- the keyword has no `$` and at most one `_`; what follows is `*`, a number or a class name (starts with a letter) -/
 def wfKw (kw : Str) : Bool :=
-  match afterUS kw with
+  !(kw.contains '$') &&
+  match afterUS (upper kw) with
   | none => true
   | some s => !(s.contains '_') && (s == ['*'] || isDigitStr s || (match s with | c :: _ => c.isAlpha | [] => false))
 
